@@ -16,3 +16,21 @@ package storage
 //@   ensures [dot] result0.ns[len(namespace)] == '.'
 //@   ensures [own] fresh(result0) && fresh(result0.ns)
 //@   modifies nothing
+//
+// ---- the store is consulted (property C18): a value handed out as persisted is read from the store ----
+// Every Get runs exactly one read transaction and every Set exactly one update transaction before it returns,
+// whatever the outcome: neither answers from anywhere else (a process-local copy does not survive a restart and
+// is not namespaced). nviews / nupdates are the verifier's counts of the View / Update calls made here.
+//@ func (*badgeStorage).Get
+//@   check post
+//@   physical 0 <= nviews && nviews < 1<<49
+//@   callcount View: nviews
+//@   ensures [consulted] nviews == old(nviews) + 1
+//@   modifies *
+//
+//@ func (*badgeStorage).Set
+//@   check post
+//@   physical 0 <= nupdates && nupdates < 1<<49
+//@   callcount Update: nupdates
+//@   ensures [stored] nupdates == old(nupdates) + 1
+//@   modifies *
